@@ -7,6 +7,9 @@ import Honeycomb.Model.Session
 import Honeycomb.Model.SessionIO
 import Honeycomb.Model.SessionGrid
 import Honeycomb.Model.Session3
+import Honeycomb.Model.SessionScene
+import Honeycomb.Model.SessionGeo
+import Honeycomb.Model.SessionKernels
 
 namespace HC
 
@@ -18,8 +21,8 @@ def firstSome {α β γ : Type} (fs : List (α → β → Option γ)) (a : α) (
     | none => firstSome rest a b
 
 def allHooks : Hooks where
-  txOp := firstSome [txOp3]
-  top := firstSome [top3, topGrid, topIO]
+  txOp := firstSome [txOp3, txOpK]
+  top := firstSome [topScene, topGeo, top3, topGrid, topIO]
 
 def stepAll (s : Sess) (line : String) : Sess × String := step allHooks s line
 
